@@ -203,10 +203,10 @@ func randomForm(r *rand.Rand) *genForm {
 				g.MaxLen = 3 + r.IntN(20)
 			}
 			if hasValue {
-				g.Value = clipRunes(renderWord(r, f.Font), g.MaxLen)
+				g.Value = clipBytes(renderWord(r, f.Font), g.MaxLen) // Create counts bytes ("field overflow")
 			}
 			if hasDefault {
-				g.Default = clipRunes(renderWord(r, f.Font), g.MaxLen)
+				g.Default = clipBytes(renderWord(r, f.Font), g.MaxLen)
 			}
 		case kDate:
 			g.Format = pick(r, dateFormats)[0]
@@ -293,6 +293,18 @@ func subset(r *rand.Rand, s []string, n int) []string {
 		out = append(out, s[i])
 	}
 	return out
+}
+
+// clipBytes cuts s at a rune boundary so that it has at most maxLen bytes.
+func clipBytes(s string, maxLen int) string {
+	if maxLen <= 0 {
+		return s
+	}
+	for len(s) > maxLen {
+		rs := []rune(s)
+		s = string(rs[:len(rs)-1])
+	}
+	return s
 }
 
 func clipRunes(s string, maxLen int) string {
